@@ -48,6 +48,7 @@ type Solver struct {
 	in        io.WriteCloser
 	out       *bufio.Reader
 	lines     chan string
+	preferCvc5  bool
 	modelCostly bool // get-value is slow on this harness: skip optional model fetches
 	level     int
 	defLevel  map[int]int // term id -> level at which it is defined/declared
@@ -231,6 +232,19 @@ func (s *Solver) restartWithStack() {
 
 // check asks for satisfiability of the current stack.
 func (s *Solver) check() Result {
+	if s.preferCvc5 {
+		// division/remainder by constants: cvc5's integer encoding first
+		if r := s.oneShot("cvc5"); r != resUnknown {
+			s.stats.Queries++
+			s.stats.FallbackDecided++
+			if r == resSat {
+				s.stats.Sat++
+			} else {
+				s.stats.Unsat++
+			}
+			return r
+		}
+	}
 	t0 := time.Now()
 	s.send("(check-sat)")
 	r := resUnknown
@@ -401,17 +415,30 @@ func (s *Solver) oneShot(which string) Result {
 	cmd.Stdin = strings.NewReader(script)
 	outb, _ := cmd.Output()
 	out := string(outb)
-	if strings.Contains(out, "(error") {
-		return resUnknown
+	// an error reported before the verdict makes the answer untrustworthy; the
+	// "(error" that get-value prints after an unsat verdict is expected.
+	var verdict, rest string
+	for i, l := range strings.Split(out, "\n") {
+		l = strings.TrimSpace(l)
+		if l == "" {
+			continue
+		}
+		if strings.HasPrefix(l, "(error") {
+			return resUnknown
+		}
+		if l == "sat" || l == "unsat" || l == "unknown" || l == "timeout" {
+			verdict = l
+			rest = strings.Join(strings.Split(out, "\n")[i+1:], "\n")
+			break
+		}
 	}
-	lines := strings.SplitN(strings.TrimSpace(out), "\n", 2)
-	switch strings.TrimSpace(lines[0]) {
+	switch verdict {
 	case "unsat":
 		return resUnsat
 	case "sat":
 		lastFallbackModel = nil
-		if len(lines) > 1 {
-			lastFallbackModel = parseModel(lines[1])
+		if !strings.Contains(rest, "(error") && strings.TrimSpace(rest) != "" {
+			lastFallbackModel = parseModel(rest)
 		}
 		return resSat
 	}
